@@ -12,7 +12,7 @@
 (***************************************************************************)
 EXTENDS MCBase
 
-CONSTANTS MaxContent, MaxSeq, MaxTotal
+CONSTANTS MaxContent, MaxSeq, MaxTotal, BigPalettes
 
 \* byte-marked argument values: every byte of every argument is distinct within a call
 Mark(seed, w) == [i \in 1..w |-> (seed * 16 + i * 7 + 3) % 256]
@@ -64,6 +64,7 @@ CtorParams ==
   { [kind |-> n, seed |-> s, n |-> 0, variant |-> "sized"] : n \in SizedInfoKinds \cup SizedHdrKinds, s \in {1, 2} }
   \cup { [kind |-> n, seed |-> s, n |-> len, variant |-> "dst"] : n \in DstCtorKinds, s \in {1, 2}, len \in 0..MaxContent }
   \cup { [kind |-> n, seed |-> 1, n |-> 0, variant |-> v] : n \in {"end", "hend", "efi_bs"}, v \in {"new", "default"} }
+  \cup { [kind |-> "framebuffer", seed |-> 1, n |-> n, variant |-> "dst"] : n \in BigPalettes }
   \cup { [kind |-> "module", seed |-> 1, n |-> 3, variant |-> v] : v \in {"end=start", "end<start"} }
   \cup { [kind |-> "efi_mmap", seed |-> 1, n |-> len, variant |-> v] : v \in {"descs", "size0"}, len \in 0..2 }
   \cup { [kind |-> n, seed |-> 1, n |-> len, variant |-> v] : n \in {"cmdline", "bootloader", "module"}, len \in 0..3,
